@@ -829,6 +829,8 @@ theorem step_core {c : Cfg} (hs : Sane c) (hp : c.policy = .core) {m m' : M} (hw
         split at h
         · -- finished: open the frame
           cases h
+          have hcy : cyclicAt c.policy m.k s = false := by rw [hp]; rfl
+          simp only [hcy, Bool.false_eq_true, if_false]
           refine ⟨⟨hw.cols, ?_⟩, ?_⟩
           · intro t i hh
             simp only [Option.some.injEq, Prod.mk.injEq] at hh
